@@ -19,6 +19,11 @@
 //!     the message alone (inner messages dropped) is put in a fresh Report and printed with print_all into a
 //!     Vec<u8>; the header line after the description is parsed from the right.  `P,P` when that printing
 //!     panics, `?,?` when no header could be parsed, `-,-` when there is no location.
+//!     For located messages four more fields follow: tfile-hex,tline,tcol,excerpt — what print_all shows for this message
+//!     when its WHOLE top-level message tree is printed (nested messages are printed by the recursive print_msg, which is
+//!     where a wrong file text or indentation state would show): the file name, line and column of its `--> file:line:col:`
+//!     header and the excerpt lines below it as `n:texthex/n:texthex` (n = printed line number, text = printed source text).
+//!     `P` when printing the tree panics, `?` when the message's label line or header cannot be found in the output.
 //!   `PANIC` when assembling itself panics.
 //!   When the hook is absent from the tree under test (so that this file, and with it the whole harness crate,
 //!   still builds) the message list reads `NOHOOK`; assembling and print_all panics are still reported.
@@ -109,6 +114,90 @@ fn printed_linecol(fs: &util::FileServerMock, msg: &diagn::Message) -> (String, 
     (ln.to_string(), col.to_string())
 }
 
+fn label_of(kind: diagn::MessageKind) -> &'static str {
+    match kind {
+        diagn::MessageKind::Error => "error",
+        diagn::MessageKind::Warning => "warning",
+        diagn::MessageKind::Note => "note",
+    }
+}
+
+/// print one top-level message with all its nested messages, through print_all
+fn print_tree(fs: &util::FileServerMock, top: &diagn::Message) -> Option<Vec<String>> {
+    guarded(|| {
+        let mut rep = diagn::Report::new();
+        rep.message(top.clone());
+        let mut buf = Vec::<u8>::new();
+        rep.print_all(&mut buf, fs, false);
+        String::from_utf8_lossy(&buf).split('\n').map(|l| l.to_string()).collect::<Vec<String>>()
+    })
+}
+
+/// walk the printed tree in the order print_msg emits it and pick, for every message, its header and excerpt
+fn assign(msg: &diagn::Message, depth: usize, lines: &Vec<String>, cursor: &mut usize, out: &mut Vec<String>) {
+    let want = format!("{}{}: {}", if depth > 0 { "+ " } else { "" }, label_of(msg.kind), msg.descr.split('\n').next().unwrap_or(""));
+    let mut k = *cursor;
+    while k < lines.len() && lines[k].trim_start() != want.trim_end() && lines[k].trim_start() != want {
+        k += 1;
+    }
+    let mut info = "-,-,-,-".to_string();
+    if k >= lines.len() {
+        info = "?,?,?,?".to_string();
+    } else {
+        *cursor = k + 1 + msg.descr.matches('\n').count();
+        if let Some(span) = msg.span {
+            let head = if *cursor < lines.len() { lines[*cursor].trim_start().to_string() } else { String::new() };
+            if let Some(h) = head.strip_prefix("--> ") {
+                *cursor += 1;
+                if span.location().is_some() {
+                    let h = h.strip_suffix(":").unwrap_or(h);
+                    let mut it = h.rsplitn(3, ':');
+                    let col = it.next().unwrap_or("?").to_string();
+                    let ln = it.next().unwrap_or("?").to_string();
+                    let file = it.next().map(|f| hex(f)).unwrap_or("?".to_string());
+                    let mut ex = Vec::new();
+                    while *cursor < lines.len() {
+                        let t = lines[*cursor].trim_start();
+                        let digits: String = t.chars().take_while(|c| c.is_ascii_digit()).collect();
+                        if !digits.is_empty() && t[digits.len()..].starts_with(" | ") {
+                            ex.push(format!("{}:{}", digits, hex(&t[digits.len() + 3..])));
+                        } else if !digits.is_empty() && &t[digits.len()..] == " |" {
+                            ex.push(format!("{}:", digits));
+                        } else if t.starts_with("| ") || t == "|" {
+                        } else {
+                            break;
+                        }
+                        *cursor += 1;
+                    }
+                    info = format!("{},{},{},{}", file, ln, col, if ex.is_empty() { "-".to_string() } else { ex.join("/") });
+                }
+            } else {
+                info = "?,?,?,?".to_string();
+            }
+        }
+    }
+    out.push(info);
+    for inner in &msg.inner {
+        assign(inner, depth + 1, lines, cursor, out);
+    }
+}
+
+fn tree_infos(fs: &util::FileServerMock, top: &diagn::Message) -> Vec<String> {
+    let mut out = Vec::new();
+    match print_tree(fs, top) {
+        Some(lines) => {
+            let mut cursor = 0;
+            assign(top, 0, &lines, &mut cursor, &mut out);
+        }
+        None => {
+            for _ in 0..top.len_with_inner() {
+                out.push("P,P,P,P".to_string());
+            }
+        }
+    }
+    out
+}
+
 fn walk(fs: &util::FileServerMock, msg: &diagn::Message, depth: usize, out: &mut Vec<String>) {
     use util::FileServer;
     let kind = match msg.kind {
@@ -161,7 +250,14 @@ fn program(entry: &str, files: &str) -> String {
         });
         let mut items = Vec::new();
         for m in report.verif_messages() {
+            let first = items.len();
             walk(&fs, m, 0, &mut items);
+            let infos = tree_infos(&fs, m);
+            for (k, info) in infos.iter().enumerate() {
+                if first + k < items.len() && items[first + k].split(',').nth(2) == Some("S") {
+                    items[first + k] = format!("{},{}", items[first + k], info);
+                }
+            }
         }
         let list = if HOOK_MISSING.load(std::sync::atomic::Ordering::SeqCst) { "NOHOOK".to_string() } else { items.join(";") };
         format!("R\t{}\t{}\t{}", if ok { "ok" } else { "err" },
